@@ -31,25 +31,25 @@ contract(
 # ---- a connected operation from "session registered, no connection": large Forward Open, then standard with 500
 OPENED = SETUP + ["d._sock = t", "d._connection_opened = True", "d._session = session"]
 for _policy, _replies, _kinds in (
-        ("large_ok", "[spec.env.forward_open_reply(True, 0), spec.msgrouter.connected_reply(0x0e, 0, b'ok')]", "['fo-large', 'connected']"),
-        ("large_refused", "[spec.env.forward_open_reply(True, 1), spec.env.forward_open_reply(False, 0), spec.msgrouter.connected_reply(0x0e, 0, b'ok')]",
+        ("large_ok", "[spec.env.forward_open_reply(True, 0, cid), spec.msgrouter.connected_reply(0x0e, 0, b'ok')]", "['fo-large', 'connected']"),
+        ("large_refused", "[spec.env.forward_open_reply(True, 1), spec.env.forward_open_reply(False, 0, cid), spec.msgrouter.connected_reply(0x0e, 0, b'ok')]",
          "['fo-large', 'fo-standard', 'connected']"),
         ("all_refused", "[spec.env.forward_open_reply(True, 1), spec.env.forward_open_reply(False, 1)]", "['fo-large', 'fo-standard']")):
     contract(
         id=f"lifecycle.connected_op.{_policy}", func="pycomm3.cip_driver.CIPDriver.generic_message",
         call="d.generic_message(service=0x0e, class_code=1, instance=1, attribute=1, connected=True)",
-        params={"session": P.int(1, 0xFFFFFFFF), "fail_at": FAULT}, setup=[f"replies = {_replies}"] + OPENED,
-        ensures=[f"spec.env.frame_kinds(t.sent) == {_kinds}", "d._target_is_connected", "d._target_cid == b'\\x11\\x22\\x33\\x44'",
+        params={"session": P.int(1, 0xFFFFFFFF), "fail_at": FAULT, "cid": P.bytes(len=4)}, setup=[f"replies = {_replies}"] + OPENED,
+        ensures=[f"spec.env.frame_kinds(t.sent) == {_kinds}", "d._target_is_connected",
                  "result.value == b'ok'", f"d.connection_size == {4000 if _policy == 'large_ok' else 500}",
                  "all(spec.encap.try_parse_frame(f)[1] == session for f in t.sent)",
-                 "spec.encap.try_parse_frame(t.sent[-1])[3][1] == b'\\x11\\x22\\x33\\x44'",
+                 "spec.encap.try_parse_frame(t.sent[-1])[3][1] == cid",      # every connection id the target may grant, 0 included
                  # the size the target enforces (asked for in the accepted Forward Open) is the size the driver plans with
                  "spec.env.forward_open_size(t.sent[-2]) == d.connection_size"],
         raises_only=LIB,
         ensures_exc=[("fail_at is not None" if _policy != "all_refused" else "True"),
                      "implies('connected' in spec.env.frame_kinds(t.sent), d._target_is_connected)",
                      f"spec.env.frame_kinds(t.sent) == {_kinds}[:len(t.sent)]"],
-        props=["C10", "C04"], max_paths=20000)
+        props=["C10", "C04", "C11"], max_paths=20000)
 # the same from "already fell back to the standard Forward Open" (a second call after a refused large one)
 for _policy, _replies, _kinds in (
         ("ok", "[spec.env.forward_open_reply(False, 0), spec.msgrouter.connected_reply(0x0e, 0, b'ok')]", "['fo-standard', 'connected']"),
@@ -65,7 +65,7 @@ for _policy, _replies, _kinds in (
         ensures_exc=[("fail_at is not None" if _policy == "ok" else "True"),
                      "'connected' not in spec.env.frame_kinds(t.sent) or d._target_is_connected",
                      f"spec.env.frame_kinds(t.sent) == {_kinds}[:len(t.sent)]"],
-        props=["C10", "C04"], max_paths=20000)
+        props=["C10", "C04", "C11"], max_paths=20000)
 # no session: nothing at all is sent
 contract(
     id="lifecycle.connected_op.no_session", func="pycomm3.cip_driver.CIPDriver.generic_message",
